@@ -153,6 +153,9 @@ def leaves_ok(t, want_root, want_path):
     return _jointly_covers({tuple(p[3]) for p in ps}, tuple(want_path))
 
 
+_ONLY_FIELD = [None]  # name of the only field of the type whose value is being converted, if it has just one
+
+
 def _jointly_covers(paths, base, depth=0):
     """the set of place paths (all extending `base`) makes up all of `base`: base itself, or for
     every variant that is mentioned its payload, or a newtype's only field, or at least two
@@ -169,6 +172,9 @@ def _jointly_covers(paths, base, depth=0):
         return all(_jointly_covers(ext, base + (h, "f:0"), depth + 1) for h in heads)
     if heads == {"f:0"}:
         return _jointly_covers(ext, base + ("f:0",), depth + 1)
+    if base == () and _ONLY_FIELD[0] is not None and heads == {"f:" + _ONLY_FIELD[0]}:
+        # the value's type is a struct with this single field
+        return _jointly_covers(ext, base + ("f:" + _ONLY_FIELD[0],), depth + 1)
     if all(h.startswith("f:") for h in heads) and len(heads) >= 2:
         return all(_jointly_covers(ext, base + (h,), depth + 1) for h in heads)
     return False
@@ -199,7 +205,14 @@ def whole_value(ctx, b, R, rule, what, arity):
     the matching payload, the i-th tuple component from the i-th field, no limiting adaptor"""
     from expr import ret_alts, nobb, NONE
     forms = [nobb(t) for t in ret_alts(ctx) if t != NONE]
+    _ONLY_FIELD[0] = None
+    a = b.facts.adts.get(b.self_adt) if b.self_adt else None
+    if a and a.get("kind") == "struct" and a.get("variants"):
+        fs = [f for f in a["variants"][0]["fields"] if "PhantomData" not in f["ty"]["s"]]
+        if len(fs) == 1:
+            _ONLY_FIELD[0] = fs[0]["name"]
     bad = [show(t)[:100] for t in forms if not covers(t, ())]
+    _ONLY_FIELD[0] = None
     R.check(rule, b.label(), bool(forms) and not bad, construct=what, where=b.where(),
             detail=("not built from the whole value: %s" % bad) if bad else
             "result = %s" % "; ".join(show(t)[:90] for t in forms))
@@ -336,3 +349,55 @@ def r_zip_byref(F, R, cat=None, names=ZIP_DEFAULT_NAMES):
 def _reach(b, bi):
     from expr import reach_strict
     return reach_strict(b, bi)
+
+
+WHILE_ADAPTORS = ("take_while", "map_while", "skip_while")
+
+
+def r_byref_while(F, R, cat=None):
+    """`it.by_ref().take_while(p)` / `map_while(f)` / `skip_while(p)` has to *take* the first
+    element its closure rejects in order to look at it, and drops it: whatever consumes `it`
+    afterwards continues one element late.  Flag such an adaptor on a by_ref (or `&mut`) of an
+    iterator that some later call consumes again.  (`peekable` + `next_if`, or a loop that keeps
+    the rejected element, are the sound forms.)"""
+    from core import all_ctxs
+    from expr import operand_tree, nobb
+    n = 0
+    for top in F.bodies.values():
+        if top.kind not in ("AssocFn", "Fn") or top.in_tests() or top.derived:
+            continue
+        for ctx in all_ctxs(F, top):
+            b = ctx.body
+            for (bi, t) in b.calls():
+                tag = callee_tag(t.get("callee"))
+                if tag[1] not in WHILE_ADAPTORS or tag[0] != "Iterator" or len(t["args"]) != 2:
+                    continue
+                n += 1
+                left = nobb(operand_tree(ctx, t["args"][0]))
+                by = None
+                if left[0] == "call" and left[1] == ("Iterator", "by_ref") and left[2]:
+                    by = left[2][0]
+                elif t["args"][0]["k"] in ("move", "copy") and b.locals[t["args"][0]["place"]["l"]]["ty"].get("mut") and \
+                        b.locals[t["args"][0]["place"]["l"]]["ty"].get("ref"):
+                    by = left  # `(&mut it).take_while(..)`
+                if by is None:
+                    continue
+                later = None
+                for (qbi, qt) in b.calls():
+                    if qbi == bi or qbi not in _reach(b, bi):
+                        continue
+                    if callee_tag(qt.get("callee"))[1] in ("drop", "size_hint", "len"):
+                        continue
+                    for a in qt["args"]:
+                        at = nobb(operand_tree(ctx, a))
+                        if at == by or (at[0] == "call" and at[2] and at[2][0] == by and at[1] != ("Iterator", "by_ref")):
+                            later = qt
+                if later is None:
+                    continue
+                R.saw(top)
+                R.check("R-BYREF", top.label(), False,
+                        construct="%s on a by_ref() iterator that is consumed again afterwards" % tag[1],
+                        where="%s:%s" % (b.file, t["line"]),
+                        detail="%s takes the first element its closure rejects and drops it; %s is consumed again at line %s, "
+                               "one element late" % (tag[1], show(by)[:50], later.get("line")))
+    R.info("R-BYREF: %d take_while / map_while / skip_while adaptors inspected" % n)
